@@ -23,6 +23,8 @@ pub enum MapOp {
     Insert { t: u8, v: u64 },
     /// insert over a present value whose destructor panics (fault injected at the replace point)
     InsertOverBomb { t: u8, v: u64 },
+    /// `mem::forget` a guard of the slot (its borrow is never released), then insert over it
+    LeakGuardThenInsert { t: u8, v: u64, excl: bool },
     InsertById { t: u8, kt: u8, kd: u8, v: u64 },
     Remove { t: u8 },
     RemoveById { t: u8, kt: u8, kd: u8 },
@@ -80,9 +82,9 @@ fn check_world_vs_model(world: &mut World, model: &Model, step: usize) -> Result
                         step, t, d
                     )));
                 }
-                // identity of the stored value
+                // identity of the stored value (through an exclusive fetch: nothing may be borrowed)
                 let real = with_wt!(t, T, {
-                    let g: Option<Fetch<T>> = world.try_fetch_by_id::<T>(wrid(t, d));
+                    let g: Option<FetchMut<T>> = world.try_fetch_mut_by_id::<T>(wrid(t, d));
                     g.map(|g| (g.id(), g.pattern_ok()))
                 });
                 match real {
@@ -198,8 +200,14 @@ impl Prop for C09 {
             let op = match src.pick(20) {
                 0 => MapOp::Insert { t, v },
                 1 => {
-                    if src.chance(6, 16) {
+                    if src.chance(5, 16) {
                         MapOp::InsertOverBomb { t, v }
+                    } else if src.chance(5, 16) {
+                        MapOp::LeakGuardThenInsert {
+                            t,
+                            v,
+                            excl: src.chance(8, 16),
+                        }
                     } else {
                         MapOp::Insert { t, v }
                     }
@@ -263,6 +271,7 @@ impl Prop for C09 {
         let mut model: Model = BTreeMap::new();
         let (mut mismatches, mut replaces, mut removes) = (0, 0, 0);
         let mut bombs = 0u64;
+        let mut leaks = 0u64;
         for (step, op) in ops.iter().enumerate() {
             let bad = |what: String| Fail::new(format!("step {} {:?}: {}", step, op, what));
             match op.clone() {
@@ -270,6 +279,26 @@ impl Prop for C09 {
                     let id = C09::fresh_value(&model, t, v);
                     let r = outcome(|| with_wt!(t, T, world.insert(T::make(id))));
                     r.map_err(|e| bad(format!("insert panicked: {}", e)))?;
+                    if model.insert((t, 0), id).is_some() {
+                        replaces += 1;
+                    }
+                }
+                MapOp::LeakGuardThenInsert { t, v, excl } => {
+                    let id = C09::fresh_value(&model, t, v);
+                    if model.contains_key(&(t, 0)) {
+                        leaks += 1;
+                        with_wt!(t, T, {
+                            if excl {
+                                std::mem::forget(world.fetch_mut::<T>());
+                            } else {
+                                std::mem::forget(world.fetch::<T>());
+                            }
+                        });
+                    }
+                    // insert replaces the slot: the new value is usable whatever happened to
+                    // guards of the old one
+                    let r = outcome(|| with_wt!(t, T, world.insert(T::make(id))));
+                    r.map_err(|e| bad(format!("insert over a slot with a forgotten guard panicked: {}", e)))?;
                     if model.insert((t, 0), id).is_some() {
                         replaces += 1;
                     }
@@ -502,6 +531,7 @@ impl Prop for C09 {
             st.nontrivial(ops, || json!({"mismatching_calls": mismatches, "replaces": replaces, "removes": removes}));
         }
         st.class_n("replaced_value_with_panicking_destructor", bombs);
+        st.class_n("replaced_slot_with_forgotten_guard", leaks);
         st.class_n("mismatching_id_calls", mismatches);
         st.class_n("replaces", replaces);
         st.class_n("removes_of_present", removes);
